@@ -29,6 +29,8 @@ SHAPES = {
     "tr-tree": ("tr({3},{{pk({0}),multi_a(2,{1},{2})}})", False, True, 1),
     "tr-multi_a": ("tr({3},multi_a(2,{0},{1},{2}))", False, True, 2),
     "tr-sortedmulti_a": ("tr({3},sortedmulti_a(2,{0},{1}))", False, True, 2),
+    # many keys, one signature: eleven checks against empty signatures, which BIP342's budget does not charge for
+    "tr-multi_a-1of12": ("tr({3},multi_a(1,{4},{5},{6},{7},{8},{0},{9},{10},{11},{12},{13},{14}))", False, True, 1),
     "tr-mini": ("tr({3},and_v(v:pk({0}),older(10)))", False, True, 1),
     # a multi_a() *fragment* inside a miniscript leaf (the satisfier's own walk over the keys, not the BIP387 leaf's)
     "tr-mini-multi_a": ("tr({3},and_v(v:multi_a(2,{0},{1},{2}),older(10)))", False, True, 2),
